@@ -125,6 +125,7 @@ type ctlStream struct {
 	sent     int
 	failNext bool
 	failed   bool
+	failEOF  bool
 	stalled  bool
 	// set when the client went away; doneAtCancel records whether the handler had already returned
 	cancelled    bool
@@ -148,6 +149,9 @@ func (s *ctlStream) send() error {
 		// a failed stream stays failed
 		s.failNext = false
 		s.failed = true
+		if s.failEOF {
+			return errors.New("EOF")
+		}
 		return errors.New("rpc error: code = Unavailable desc = transport is closing")
 	}
 	s.sent++
@@ -179,6 +183,8 @@ func (s *ctlStream) envs() []*verifrt.EnvEvent {
 			s.cancel()
 		}},
 		{Name: "next-send-fails", Enabled: func() bool { return !s.failNext && !s.failed && !s.cancelled && !s.stalled }, Fire: func() { s.failNext = true }},
+		// the same with the error text of a closed stream ("EOF"), which the handlers treat differently
+		{Name: "next-send-fails-eof", Enabled: func() bool { return !s.failNext && !s.failed && !s.cancelled && !s.stalled }, Fire: func() { s.failNext, s.failEOF = true, true }},
 	}
 }
 
